@@ -3,6 +3,8 @@
    gen:   prints for dim X then dim Y the model's  OK <naux> (des weight fixed)* F <k> id* C <m> (l r gap eq)*  | ERR idx|cons
    check: the line carries, after the cc list, "| tolnum tolden | den cx0 cy0 ... " (centres as integers over den);
           prints for every cc "<holdsX><holdsY>" using the extracted verified checker cc_holdsb.
+   trace: line "rk xAxis yAxis iters" (0/1 0/1 0/1 n): prints the projections (solves) of the model's run_trace in program order,
+          one letter per WProj (x / y), and the model's last_write to X and to Y (P = a projection output of that dimension).
    Z and Q stay the Coq datatypes. *)
 open C07_model
 
@@ -72,12 +74,22 @@ let print_gen d n ccs =
     List.iter (fun c -> Buffer.add_string b (Printf.sprintf " %d %d %s %d" (int_of_nat c.sl) (int_of_nat c.sr) (str_q c.sgap) (if c.seqy then 1 else 0))) s.so_seps;
     Buffer.add_char b '\n'; print_string (Buffer.contents b)
 
+let trace_line line =
+  let t = Array.of_list (List.map int_of_string (List.filter (fun x -> x <> "") (String.split_on_char ' ' (String.trim line)))) in
+  let tr = run_trace (t.(0) <> 0) (t.(1) <> 0) (t.(2) <> 0) (nat_of_int t.(3)) in
+  let b = Buffer.create 256 in
+  List.iter (fun w -> match w with WProj DX -> Buffer.add_char b 'x' | WProj DY -> Buffer.add_char b 'y' | _ -> ()) tr;
+  if Buffer.length b = 0 then Buffer.add_char b '-';
+  let lw d = match last_write d tr with Some (WProj d') when d' = d -> "P" | Some _ -> "other" | None -> "none" in
+  Printf.printf "%s %s %s\n" (Buffer.contents b) (lw DX) (lw DY)
+
 let () =
   let mode = if Array.length Sys.argv > 1 then Sys.argv.(1) else "gen" in
   try
     while true do
       let line = input_line stdin in
-      if String.length line > 0 then begin
+      if String.length line > 0 && mode = "trace" then trace_line line
+      else if String.length line > 0 then begin
         let parts = String.split_on_char '|' line in
         let ints s = Array.of_list (List.map int_of_string (List.filter (fun x -> x <> "") (String.split_on_char ' ' (String.trim s)))) in
         let tk = { t = ints (List.nth parts 0); p = 0 } in
